@@ -588,7 +588,43 @@ theorem parseToks_printMin (e : Expr F) (hwf : LegalIdents e) :
   simp only [printMin, List.append_nil] at h
   simp [parseToks, printMin, h]
 
+
+/-- A degenerate float implementation, used only to run lexer + parser inside the kernel on
+concrete strings (`decide +kernel` needs a closed term). -/
+def unitFloatOps : FloatOps Unit where
+  add _ _ := ()
+  sub _ _ := ()
+  mul _ _ := ()
+  div _ _ := ()
+  rem _ _ := ()
+  powf _ _ := ()
+  ofInt _ := ()
+  toInt _ := 0
+  feq _ _ := true
+  flt _ _ := false
+  fle _ _ := true
+  neg _ := ()
+  abs _ := ()
+  sin _ := ()
+  cos _ := ()
+  tan _ := ()
+  asin _ := ()
+  acos _ := ()
+  atan _ := ()
+  exp _ := ()
+  ln _ := ()
+  log10 _ := ()
+  sqrt _ := ()
+  trunc _ := ()
+  floor _ := ()
+  ceil _ := ()
+  round _ := ()
+  ofDec _ _ := ()
+  pi := ()
+  e := ()
+
 end CamVerif.Formula.Proofs
+
 
 
 
